@@ -1,6 +1,6 @@
 """C04 — encoding is deterministic under every thread interleaving, and terminates."""
 from hypothesis import strategies as st
-from props.common import svt, gens, summarize_cfg, first_difference, run_status
+from props.common import svt, gens, summarize_cfg, first_difference, run_status, diff_region
 
 ID = "C04"
 LEVEL = "exploration"
@@ -28,7 +28,7 @@ def budget(tier):
 def strategy(tier):
     @st.composite
     def s(draw):
-        c, n, tp = draw(gens.cfg(max_dim=208, min_dim=64, frames=(4, 24 if tier == "thorough" else 14), allow_twopass=False, allow_rc=False, exclude=("AQ1", "GRAIN", "SRES", "2PASS"), lps=(2, 3, 4, 8, 16),
+        c, n, tp = draw(gens.cfg(max_dim=208, min_dim=64, frames=(4, 24 if tier == "thorough" else 14), allow_twopass=False, allow_rc=False, exclude=("AQ1", "GRAIN", "SRES", "2PASS", "16BP"), lps=(2, 3, 4, 8, 16),
                                  presets=(8, 8, 7, 6, 5), tools_p=1, allow_superres=False, allow_grain=False))
         cnt = draw(gens.content(kinds=(2, 3, 5, 7)))
         if draw(st.integers(0, 4)) == 0:
@@ -88,7 +88,7 @@ def run_case(case, tier):
                 d = first_difference(ref, r)
                 if d:
                     rcm = base["cfg"].get("rate_control_mode", 0)
-                    viol.append(dict(key="C04|nondeterministic|" + ("cqp" if not rcm else "rc%d" % rcm), what="schedule %s (events %d) vs unperturbed: %s" % (sd, ev, d)))
+                    viol.append(dict(key="C04|nondeterministic|" + ("cqp" if not rcm else "rc%d" % rcm) + ("|eos-tail" if diff_region(d, ref, base["cfg"].get("hierarchical_levels", 4)) == "eos-tail" else ""), what="schedule %s (events %d) vs unperturbed: %s" % (sd, ev, d)))
         inc = None
         if st0 not in ("ok", "rejected") and not viol:
             inc = "reference run failed: %s" % st0
